@@ -233,43 +233,57 @@ Proof.
 Qed.
 
 (* the Python loop keeps exactly what the property says, for any set of disk-backed types *)
-Lemma partitions_loop_exact all fstypes fs es :
-  (forall t, mem_bytes t fstypes = disk_backed fs t) -> forallb plain_dev es = true ->
-  partitions_loop all fstypes es = Val (spec_partitions all fs es).
+Lemma partitions_loop_entries all fstypes root es :
+  partitions_loop all fstypes root es = Val (filter_some (map (part_entry all fstypes root) es)).
 Proof.
-  intros Hm. induction es as [|e es IH]; intros Hp; [reflexivity|].
-  cbn [forallb] in Hp. apply andb_true_iff in Hp as [He Hes].
-  unfold plain_dev in He. apply andb_true_iff in He as [H1 H2]. apply negb_true_iff in H1, H2.
-  cbn [partitions_loop]. unfold spec_partitions. cbn [map filter_some]. unfold spec_part at 1.
+  induction es as [|e es IH]; [reflexivity|]. cbn [partitions_loop map filter_some]. rewrite IH. cbn [obind].
+  unfold part_entry.
+  destruct (negb all && _); reflexivity.
+Qed.
+
+Lemma part_entry_spec all fstypes fs root e :
+  (forall t, mem_bytes t fstypes = disk_backed fs t) -> part_entry all fstypes root e = spec_part all fs root e.
+Proof.
+  intros Hm. unfold part_entry, spec_part, spec_device, is_root_spelling. rewrite Hm.
   destruct (beqb (m_dev e) (bs "none")) eqn:En.
   - change (beqb [] (bs "/dev/root")) with false. change (beqb [] (bs "rootfs")) with false. cbn [orb].
-    rewrite IH by assumption. cbn [obind]. destruct all; cbn [negb andb orb]; reflexivity.
-  - rewrite H1, H2. cbn [orb]. rewrite IH by assumption. cbn [obind]. rewrite Hm.
+    destruct all; reflexivity.
+  - set (d := if beqb (m_dev e) (bs "/dev/root") || beqb (m_dev e) (bs "rootfs")
+              then match root with Some p => p | None => m_dev e end else m_dev e).
     destruct all; cbn [negb andb orb]; [reflexivity|].
-    destruct (m_dev e) eqn:Ed; cbn [orb andb]; [reflexivity|].
-    destruct (disk_backed fs (m_type e)); reflexivity.
+    destruct d; cbn [orb andb]; [reflexivity|]. destruct (disk_backed fs (m_type e)); reflexivity.
+Qed.
+
+(* the Python loop keeps exactly what the property says, for any set of disk-backed types and any answer of the root
+   device lookup *)
+Lemma partitions_loop_exact all fstypes fs root es :
+  (forall t, mem_bytes t fstypes = disk_backed fs t) ->
+  partitions_loop all fstypes root es = Val (spec_partitions all fs root es).
+Proof.
+  intros Hm. rewrite partitions_loop_entries. unfold spec_partitions. do 2 f_equal.
+  apply map_ext. intros e. now apply part_entry_spec.
 Qed.
 
 (* cext.disk_partitions + loop, all = True (no /proc/filesystems involved) *)
-Lemma disk_partitions_gen_all fixed fsb es :
-  forallb wf_ment es = true -> forallb dev_ok es = true -> forallb short_line es = true -> forallb plain_dev es = true ->
+Lemma disk_partitions_gen_all fixed root fsb es :
+  forallb wf_ment es = true -> forallb dev_ok es = true -> forallb short_line es = true ->
   (fixed = true \/ forallb utf8_ok es = true) ->
-  disk_partitions_gen fixed true fsb (k_mounts es) = Val (spec_partitions true [] es).
+  disk_partitions_gen fixed true root fsb (k_mounts es) = Val (spec_partitions true [] root es).
 Proof.
-  intros Hwf Hd Hs Hp Hu. unfold disk_partitions_gen. cbn [obind].
+  intros Hwf Hd Hs Hu. unfold disk_partitions_gen. cbn [obind].
   rewrite getmntent_exact by assumption. cbn [obind]. rewrite c_disk_partitions_ok by assumption. cbn [obind].
-  apply partitions_loop_exact; [|assumption]. intros t. reflexivity.
+  apply partitions_loop_exact. intros t. reflexivity.
 Qed.
 
-Lemma disk_partitions_all fsb es :
-  forallb wf_ment es = true -> forallb dev_ok es = true -> forallb short_line es = true -> forallb plain_dev es = true ->
-  disk_partitions true fsb (k_mounts es) = Val (spec_partitions true [] es).
+Lemma disk_partitions_all root fsb es :
+  forallb wf_ment es = true -> forallb dev_ok es = true -> forallb short_line es = true ->
+  disk_partitions true root fsb (k_mounts es) = Val (spec_partitions true [] root es).
 Proof. intros. apply disk_partitions_gen_all; auto. Qed.
 
-Lemma disk_partitions_legacy_all fsb es :
-  forallb wf_ment es = true -> forallb dev_ok es = true -> forallb short_line es = true -> forallb plain_dev es = true ->
+Lemma disk_partitions_legacy_all root fsb es :
+  forallb wf_ment es = true -> forallb dev_ok es = true -> forallb short_line es = true ->
   forallb utf8_ok es = true ->
-  disk_partitions_legacy true fsb (k_mounts es) = Val (spec_partitions true [] es).
+  disk_partitions_legacy true root fsb (k_mounts es) = Val (spec_partitions true [] root es).
 Proof. intros. apply disk_partitions_gen_all; auto. Qed.
 
 Definition ment_long : ment :=
@@ -282,7 +296,7 @@ Definition ment_plain : ment :=
 (* known finding: a line over 4095 bytes comes back cut *)
 Lemma mounts_longline_refuted : exists es,
   forallb wf_ment es = true /\ forallb dev_ok es = true /\ forallb plain_dev es = true /\ forallb utf8_ok es = true /\
-  exists rows, disk_partitions true [] (k_mounts es) = Val rows /\ map m_type rows = [[]].
+  exists rows, disk_partitions true None [] (k_mounts es) = Val rows /\ map m_type rows = [[]].
 Proof.
   exists [ment_long]. repeat split; try (vm_compute; reflexivity).
   eexists. split; vm_compute; reflexivity.
@@ -291,11 +305,11 @@ Qed.
 (* known finding: one non-UTF-8 byte in the options makes the whole call fail *)
 Lemma mounts_legacy_nonutf8_refuted : exists es,
   forallb wf_ment es = true /\ forallb dev_ok es = true /\ forallb plain_dev es = true /\ forallb short_line es = true /\
-  disk_partitions_legacy true [] (k_mounts es) = Exc UnicodeError.
+  disk_partitions_legacy true None [] (k_mounts es) = Exc UnicodeError.
 Proof. exists [ment_nonutf8]. repeat split; vm_compute; reflexivity. Qed.
 
 (* the same non-UTF-8 entry comes through unchanged with the code of record *)
-Lemma mounts_nonutf8_ok : disk_partitions true [] (k_mounts [ment_nonutf8]) = Val [ment_nonutf8].
+Lemma mounts_nonutf8_ok : disk_partitions true None [] (k_mounts [ment_nonutf8]) = Val [ment_nonutf8].
 Proof. vm_compute. reflexivity. Qed.
 
 Example mounts_example :
@@ -405,27 +419,27 @@ Proof.
   destruct (fstypes_of_printed fs [] H) as [types [E M]]. exists types. split; [exact E|]. intros t. now rewrite M.
 Qed.
 
-Lemma spec_partitions_all_any fs fs' es : spec_partitions true fs es = spec_partitions true fs' es.
+Lemma spec_partitions_all_any fs fs' root es : spec_partitions true fs root es = spec_partitions true fs' root es.
 Proof. reflexivity. Qed.
 
 (* disk_partitions(all) end to end, for every printed /proc/filesystems and every mounts table *)
-Lemma disk_partitions_gen_exact fixed all fs es :
+Lemma disk_partitions_gen_exact fixed all root fs es :
   forallb wf_fs fs = true -> forallb wf_ment es = true -> forallb dev_ok es = true ->
-  forallb short_line es = true -> forallb plain_dev es = true ->
+  forallb short_line es = true ->
   (fixed = true \/ forallb utf8_ok es = true) ->
-  disk_partitions_gen fixed all (k_filesystems fs) (k_mounts es) = Val (spec_partitions all fs es).
+  disk_partitions_gen fixed all root (k_filesystems fs) (k_mounts es) = Val (spec_partitions all fs root es).
 Proof.
-  intros Hfs Hwf Hd Hs Hp Hu. destruct all.
+  intros Hfs Hwf Hd Hs Hu. destruct all.
   - rewrite (spec_partitions_all_any fs []). now apply disk_partitions_gen_all.
   - unfold disk_partitions_gen. destruct (read_fstypes_exact fs Hfs) as [types [-> M]]. cbn [obind].
     rewrite getmntent_exact by assumption. cbn [obind]. rewrite c_disk_partitions_ok by assumption. cbn [obind].
     now apply partitions_loop_exact.
 Qed.
 
-Lemma disk_partitions_exact all fs es :
+Lemma disk_partitions_exact all root fs es :
   forallb wf_fs fs = true -> forallb wf_ment es = true -> forallb dev_ok es = true ->
-  forallb short_line es = true -> forallb plain_dev es = true ->
-  disk_partitions all (k_filesystems fs) (k_mounts es) = Val (spec_partitions all fs es).
+  forallb short_line es = true ->
+  disk_partitions all root (k_filesystems fs) (k_mounts es) = Val (spec_partitions all fs root es).
 Proof. intros. apply disk_partitions_gen_exact; auto. Qed.
 
 Definition fs_sample : list kfs :=
@@ -514,7 +528,7 @@ Definition ment_nodevname : ment :=
 (* known finding: the kernel prints '#' in a device name as \043, which glibc's decode_name leaves alone *)
 Lemma mounts_hash_refuted : exists es,
   forallb wf_ment es = true /\ forallb plain_dev es = true /\ forallb short_line es = true /\ forallb utf8_ok es = true /\
-  exists rows, disk_partitions true [] (k_mounts es) = Val rows /\ map m_dev rows = [bs "\043dev"] /\ map m_dev es = [bs "#dev"].
+  exists rows, disk_partitions true None [] (k_mounts es) = Val rows /\ map m_dev rows = [bs "\043dev"] /\ map m_dev es = [bs "#dev"].
 Proof.
   exists [ment_hash]. repeat split; try (vm_compute; reflexivity).
   eexists. repeat split; vm_compute; reflexivity.
@@ -524,7 +538,7 @@ Qed.
 Lemma mounts_emptydev_refuted : exists es,
   forallb wf_ment es = true /\ forallb plain_dev es = true /\ forallb short_line es = true /\ forallb utf8_ok es = true /\
   map m_dev es = [[]] /\
-  disk_partitions true [] (k_mounts es)
+  disk_partitions true None [] (k_mounts es)
     = Val [ {| m_dev := bs "/mnt"; m_dir := bs "tmpfs"; m_type := bs "rw"; m_opts := bs "0" |} ].
 Proof. exists [ment_nodevname]. repeat split; vm_compute; reflexivity. Qed.
 
@@ -540,3 +554,46 @@ Lemma boundary_4095 :
   mnt_line (k_mount_line (ment_len 4077))
     = Some {| m_dev := bs "/dev/sda1"; m_dir := 47 :: repeat 120 4077; m_type := bs "ext4"; m_opts := bs "r" |}.
 Proof. repeat split; vm_compute; reflexivity. Qed.
+
+(* ================================================================ the two spellings of the root device *)
+Lemma filter_some_app {A} (x y : list (option A)) : filter_some (x ++ y) = filter_some x ++ filter_some y.
+Proof. induction x as [|[a|] x IH]; cbn [app filter_some]; [reflexivity| |]; now rewrite IH. Qed.
+
+(* the rows of a table are the rows of its entries, each computed from that entry and the lookup result alone:
+   an entry's row does not depend on the entries before or after it *)
+Lemma spec_partitions_local all fs root pre e post :
+  spec_partitions all fs root (pre ++ e :: post)
+  = spec_partitions all fs root pre ++ spec_partitions all fs root [e] ++ spec_partitions all fs root post.
+Proof. unfold spec_partitions. change (e :: post) with ([e] ++ post). now rewrite !map_app, !filter_some_app. Qed.
+
+Lemma partitions_loop_local all fstypes root pre e post :
+  partitions_loop all fstypes root (pre ++ e :: post)
+  = Val (filter_some (map (part_entry all fstypes root) pre) ++ filter_some [part_entry all fstypes root e]
+         ++ filter_some (map (part_entry all fstypes root) post)).
+Proof. rewrite partitions_loop_entries. change (e :: post) with ([e] ++ post). now rewrite !map_app, !filter_some_app. Qed.
+
+From Coq Require Import Permutation.
+Lemma filter_some_perm {A} (x y : list (option A)) : Permutation x y -> Permutation (filter_some x) (filter_some y).
+Proof.
+  induction 1 as [|o l l' _ IH|o1 o2 l|l1 l2 l3 _ IH1 _ IH2].
+  - apply Permutation_refl.
+  - destruct o; cbn [filter_some]; [now apply perm_skip|exact IH].
+  - destruct o1, o2; cbn [filter_some]; try apply Permutation_refl. apply perm_swap.
+  - eapply perm_trans; eauto.
+Qed.
+
+(* ... nor on their order: reordering the table reorders the rows, nothing else *)
+Lemma partitions_order all fstypes root es es' : Permutation es es' ->
+  Permutation (filter_some (map (part_entry all fstypes root) es)) (filter_some (map (part_entry all fstypes root) es')).
+Proof. intros H. apply filter_some_perm, Permutation_map, H. Qed.
+
+Definition ment_rootfs : ment := {| m_dev := bs "rootfs"; m_dir := bs "/"; m_type := bs "rootfs"; m_opts := bs "rw" |}.
+Definition ment_devroot : ment := {| m_dev := bs "/dev/root"; m_dir := bs "/"; m_type := bs "ext4"; m_opts := bs "rw,relatime" |}.
+(* both spellings in one table, either order, lookup failing or succeeding: every entry keeps its own spelling, or
+   both show the resolved device *)
+Example root_spellings_example :
+  map m_dev (spec_partitions true [] None [ment_rootfs; ment_devroot]) = [bs "rootfs"; bs "/dev/root"] /\
+  map m_dev (spec_partitions true [] None [ment_devroot; ment_rootfs]) = [bs "/dev/root"; bs "rootfs"] /\
+  map m_dev (spec_partitions true [] (Some (bs "/dev/sda1")) [ment_rootfs; ment_devroot]) = [bs "/dev/sda1"; bs "/dev/sda1"] /\
+  disk_partitions true None [] (k_mounts [ment_rootfs; ment_devroot]) = Val [ment_rootfs; ment_devroot].
+Proof. vm_compute. auto. Qed.
